@@ -18,7 +18,8 @@ CHECK_DEADLOCK FALSE
 """
 
 
-def run(c, prop, what, thorough):
+def run(c, prop, what, thorough, only=None):
+    """only: predicate on the offending event selecting what this property owns (None = all)."""
     import os
     cases = c.path("cfgcases.ndjson")
     c.model_check("ConfigMC", MC_CFG % 2, tag="ConfigMC", env={"OUT_FILE": cases}, workers=4)
@@ -37,6 +38,8 @@ def run(c, prop, what, thorough):
             seen = set()
             for idx, why in bad[:60]:
                 e = evs[idx - 1]
+                if only is not None and not only(e, why):
+                    continue
                 key = (why, json.dumps(e["cfg"], sort_keys=True))
                 if key in seen:
                     continue
